@@ -122,26 +122,28 @@ def normDisk : Disk :=
 def normHistory : List Op :=
   [.request (.attr [8, 9] (some 1) 10), .write [8] 4 [], .request (.attr [8, 9] (some 1) 10)]
 
-/-- OPEN: the code as it is now.  After `zq_p8/__init__.py` appears, the relative name `.zq_m2` means
+/-- the code before a1df565 (`.noRenorm`).  After `zq_p8/__init__.py` appears, the relative name `.zq_m2` means
     `zq_p8.zq_p9.zq_m2` to a fresh project (which finds `K10`), but the long-lived project keeps the
     `_norm_cache` entry `zq_p9` for that directory and goes on looking for `zq_p9.zq_m2`:
-    `check_changes` never drops `_norm_cache`. -/
+    `check_changes` never dropped `_norm_cache` (it does since a1df565: `_renormed`). -/
 theorem C09_norm_history :
-    (run .current 10 (World.init .current normDisk) normHistory).map (·.2.2) = [.nothing, .nothing] ∧
-    fresh 10 (([8], ⟨4, []⟩) :: normDisk) (.attr [8, 9] (some 1) 10) = .payload 1 := by decide
+    (run .noRenorm 10 (World.init .noRenorm normDisk) normHistory).map (·.2.2) = [.nothing, .nothing] ∧
+    fresh 10 (([8], ⟨4, []⟩) :: normDisk) (.attr [8, 9] (some 1) 10) = .payload 1 ∧
+    (run .current 10 (World.init .current normDisk) normHistory).map (·.2.2) = [.nothing, .payload 1] := by
+  decide
 
-/-- hence the full-strength statement (relative imports included) is false of the current code -/
-theorem C09_norm_false : ¬ Transparent .current :=
+/-- hence the full-strength statement (relative imports included) was false of that code -/
+theorem C09_norm_false : ¬ Transparent .noRenorm :=
   not_transparent_of (fuel := 10) (D0 := normDisk) (ops := normHistory) (by decide) (by decide)
 
 /-- the same defect in `norm_package` taken alone.
     `zq_p8/zq_p9/` is a package, `zq_p8/` is not yet; a module in `zq_p8/zq_p9/` does `from .zq_m2 import K`:
     the name is normalised to `zq_p9.zq_m2` and the directory's package path is cached.  Then
     `zq_p8/__init__.py` is created: a fresh project normalises to `zq_p8.zq_p9.zq_m2`, the long-lived one
-    keeps answering `zq_p9.zq_m2` — `check_changes` never drops `_norm_cache`. -/
+    keeps answering `zq_p9.zq_m2` — `check_changes` never dropped `_norm_cache` (it does since a1df565: `_renormed`). -/
 theorem C09_norm :
-    let r1 := Norm.normPackage (fun d => d ∈ [[8, 9]]) [] [8, 9] 1 [2]
-    let r2 := Norm.normPackage (fun d => d ∈ [[8], [8, 9]]) r1.2 [8, 9] 1 [2]
+    let r1 := Norm.normPackage (fun d => d ∈ [[8, 9]]) false [] [8, 9] 1 [2]
+    let r2 := Norm.normPackage (fun d => d ∈ [[8], [8, 9]]) false r1.2 [8, 9] 1 [2]
     r1.1 = some [9, 2] ∧ r2.1 = some [9, 2] ∧
       Norm.freshNorm (fun d => d ∈ [[8], [8, 9]]) [8, 9] 1 [2] = some [8, 9, 2] := by
   decide
